@@ -39,7 +39,9 @@ func (f *Fosite) WriteAuthorizeError(ctx context.Context, rw http.ResponseWriter
 		return
 	}
 
-	redirectURI := ar.GetRedirectURI()
+	// Work on a copy: the URL belongs to the request (see WriteAuthorizeResponse).
+	requestRedirectURI := *ar.GetRedirectURI()
+	redirectURI := &requestRedirectURI
 
 	// The endpoint URI MUST NOT include a fragment component.
 	redirectURI.Fragment = ""
